@@ -24,6 +24,8 @@ pub enum Op {
     Prefix(&'static str, &'static str),
     Infix(&'static str, i32, bool, &'static str),
     Postfix(&'static str, &'static str),
+    /// an infix operator of the assigning type (`x OP e` binds x to handler(x, e))
+    Setter(&'static str, i32, bool, &'static str),
 }
 
 impl Op {
@@ -33,6 +35,7 @@ impl Op {
             Op::Prefix(n, t) => format!("register_prefix_op({},{})", n, t),
             Op::Infix(n, p, l, t) => format!("register_infix_op({},{},{},{})", n, p, if *l { "LEFT" } else { "RIGHT" }, t),
             Op::Postfix(n, t) => format!("register_postfix_op({},{})", n, t),
+            Op::Setter(n, p, l, t) => format!("register_infix_op({},{},SETTER,{},{})", n, p, if *l { "LEFT" } else { "RIGHT" }, t),
         }
     }
     fn kind(&self) -> String {
@@ -41,6 +44,7 @@ impl Op {
             Op::Prefix(n, _) => format!("prefix:{}", n),
             Op::Infix(n, p, l, _) => format!("infix:{}@{}{}", n, p, if *l { "L" } else { "R" }),
             Op::Postfix(n, _) => format!("postfix:{}", n),
+            Op::Setter(n, p, l, _) => format!("setter:{}@{}{}", n, p, if *l { "L" } else { "R" }),
         }
     }
 }
@@ -60,6 +64,10 @@ pub fn op_alphabet() -> Vec<Op> {
         Op::Infix("hi", 125, true, "C"),
         // the same handler object as the first `hi` registration, other precedence and associativity
         Op::Infix("hi", 125, false, "A"),
+        // the same handler object and precedence as the first `hi`, only the associativity differs;
+        // and only the operator type differs (calculating -> assigning)
+        Op::Infix("hi", 111, false, "A"),
+        Op::Setter("hi", 111, true, "A"),
         Op::Infix("+", 110, true, "A"),
         Op::Infix("+", 130, true, "B"),
         Op::Infix("/", 120, false, "A"),
@@ -113,6 +121,11 @@ fn apply_engine(op: &Op) {
             let h = handlers().lock().unwrap().1.entry(format!("in:{}:{}", n, t)).or_insert_with(|| Arc::new(move |a, b| Ok(f(vec![a, b])))).clone();
             expression_engine::register_infix_op(n, *p, InfixOpType::CALC, if *l { InfixOpAssociativity::LEFT } else { InfixOpAssociativity::RIGHT }, h)
         }
+        Op::Setter(n, p, l, t) => {
+            let f = tag1(n, t);
+            let h = handlers().lock().unwrap().1.entry(format!("in:{}:{}", n, t)).or_insert_with(|| Arc::new(move |a, b| Ok(f(vec![a, b])))).clone();
+            expression_engine::register_infix_op(n, *p, InfixOpType::SETTER, if *l { InfixOpAssociativity::LEFT } else { InfixOpAssociativity::RIGHT }, h)
+        }
     }
 }
 
@@ -146,6 +159,12 @@ fn apply_model(op: &Op, w: &mut World) {
             let f = tag1(n, t);
             let h: HFn = Arc::new(move |a| Ok(f(a)));
             w.ops.infix.insert(n.to_string(), InfixInfo { prec: *p, left: *l, setter: false });
+            w.infix.insert(n.to_string(), h);
+        }
+        Op::Setter(n, p, l, t) => {
+            let f = tag1(n, t);
+            let h: HFn = Arc::new(move |a| Ok(f(a)));
+            w.ops.infix.insert(n.to_string(), InfixInfo { prec: *p, left: *l, setter: true });
             w.infix.insert(n.to_string(), h);
         }
     }
@@ -464,6 +483,16 @@ fn run_table(t: &Table, out: &mut WorkerOut) {
             (Ok(w), Res::Ok(g)) => {
                 if w == g {
                     out.outcomes.insert("table-same-ast".into());
+                    // and the rendering of that tree means the same under the same table
+                    let back = guarded(|| {
+                        let t = parse_expression(&text).map_err(|e| format!("{:?}", e))?;
+                        let r = t.expr();
+                        parse_expression(&r).map(|a| (conv(&a), r.clone())).map_err(|e| format!("{:?} for {:?}", e, r))
+                    });
+                    match back {
+                        Res::Ok((a, _)) if a == w => {}
+                        other => out.fail(format!("table-roundtrip:{}", key), case.clone(), format!("{:?}: expr() does not parse back to the tree: {:?}", text, other)),
+                    }
                 } else {
                     out.fail(format!("table-grouping:{}", key), case.clone(), format!("{:?}: expected {:?} got {:?}", text, w, g));
                 }
@@ -565,12 +594,24 @@ impl Prop for C08 {
                 }
                 // the hook snapshot must list exactly the model's names
                 let snap = expression_engine::verif_hooks::snapshot();
-                let mut names: Vec<String> = snap.infix.iter().map(|x| x.0.clone()).collect();
-                let mut want: Vec<String> = world.ops.infix.keys().cloned().collect();
+                // (name, precedence, assigning?, left-associative?) of every infix operator, and the
+                // names in the other three registries
+                let mut names: Vec<(String, i32, bool, bool)> = snap.infix.iter().map(|x| (x.0.clone(), x.1, x.2, x.3)).collect();
+                let mut want: Vec<(String, i32, bool, bool)> = world.ops.infix.iter().map(|(k, i)| (k.clone(), i.prec, i.setter, i.left)).collect();
                 names.sort();
                 want.sort();
                 if names != want {
-                    out.fail("registry:infix-names", format!("{}|{}", stage_name, text), format!("engine {:?} model {:?}", names, want));
+                    let only_e: Vec<_> = names.iter().filter(|n| !want.contains(n)).collect();
+                    let only_m: Vec<_> = want.iter().filter(|n| !names.contains(n)).collect();
+                    out.fail("registry:infix-entries", format!("{}|{}", stage_name, text), format!("only in the engine {:?}, only in the model {:?}", only_e, only_m));
+                }
+                for (what, got, want) in [
+                    ("prefix", snap.prefix.iter().map(|x| x.0.clone()).collect::<std::collections::BTreeSet<_>>(), world.ops.prefix.iter().cloned().collect::<std::collections::BTreeSet<_>>()),
+                    ("postfix", snap.postfix.iter().map(|x| x.0.clone()).collect(), world.ops.postfix.iter().cloned().collect()),
+                ] {
+                    if got != want {
+                        out.fail(format!("registry:{}-names", what), format!("{}|{}", stage_name, text), format!("engine {:?} model {:?}", got, want));
+                    }
                 }
                 out.nontrivial.insert(hash64(&fp));
                 out.count("states", 1);
